@@ -455,6 +455,11 @@ func (n *ForNode) renderForLoop(w io.Writer, ctx *RenderContext, seq interface{}
 	// Update loop.length
 	loopVars["loop"].(map[string]interface{})["length"] = length
 
+	// Restore the enclosing loop's counters when this loop is done
+	if outerLoop, hadOuterLoop := loopCtx.context["loop"]; hadOuterLoop {
+		defer loopCtx.SetVariable("loop", outerLoop)
+	}
+
 	// Iterate based on the type
 	switch val.Kind() {
 	case reflect.Slice, reflect.Array:
